@@ -1,5 +1,6 @@
 (* C11 proofs over the lock table: internal write lock excludes, CKPT gating, parse ranges. *)
 From Coq Require Import NArith ZArith List Lia Bool Arith.
+Require Import LF.Gen.LockScriptsGen.
 Require Import LF.Base.RWBase LF.Gen.RWMutexGen LF.Gen.ConstsGen LF.Model.RWMutex LF.Proofs.RWMutexProofs LF.Model.Locks.
 Import ListNotations.
 
@@ -288,4 +289,24 @@ Proof.
     destruct b; [apply (internal_write_excludes_inv t g wal t' HT E)|apply (internal_write_all_or_nothing t g wal t' HT E)].
   - destruct (unlock_all_facts all_locks t g HT) as [t2 [E2 [HT2 _]]]. rewrite E2 in H. inversion H; subst. assumption.
   - inversion H; subst. assumption.
+  - destruct (unlock_all_facts db_locks t g HT) as [t2 [E2 [HT2 _]]]. rewrite E2 in H. inversion H; subst. assumption.
+  - destruct (unlock_all_facts shm_locks t g HT) as [t2 [E2 [HT2 _]]]. rewrite E2 in H. inversion H; subst. assumption.
 Qed.
+
+(* flushing a database handle releases the owner's PENDING / RESERVED / SHARED and nothing else: its WAL locks
+   (and everybody else's locks) stay as they are *)
+Theorem unlock_database_keeps_shm t g t' : TInv t -> unlock_all t g db_locks = Some t' ->
+  (forall l, In l shm_locks -> gst (t' l) g = gst (t l) g) /\ (forall l h, h <> g -> gst (t' l) h = gst (t l) h).
+Proof.
+  intros HT H. destruct (unlock_all_facts db_locks t g HT) as [t2 [E2 [HT2 [Hothers [_ Hnin]]]]]. rewrite E2 in H. inversion H; subst t2.
+  split.
+  - intros l Hl. apply Hnin. intros Hin. unfold shm_locks, db_locks in *. cbn in Hl, Hin.
+    destruct Hl as [<-|[<-|[<-|[<-|[<-|[<-|[<-|[<-|[<-|[]]]]]]]]]]; destruct Hin as [E|[E|[E|[]]]]; discriminate E.
+  - intros l h Hh. apply Hothers. exact Hh.
+Qed.
+
+(* Tie A: the script the theorems are about IS the order in which db.go TryAcquireWriteLock takes the locks
+   (Gen/LockScriptsGen.v is regenerated from the source on every run) *)
+Theorem write_script_is_generated : forall wal,
+  write_script wal = acts_of (gen_write_common ++ (if wal then gen_write_wal else gen_write_rollback)).
+Proof. intros [|]; reflexivity. Qed.
